@@ -14,7 +14,7 @@ from gen import model as M, edits as E
 from toolworld import tw
 
 PROP = "C11"
-LOCATIONS = ["main", "import", "version", "evolution", "manifest", "graph"]
+LOCATIONS = ["main", "import", "version", "evolution", "manifest", "graph", "version_import"]
 
 
 def out_dirs(pkg, root="/w"):
@@ -31,7 +31,7 @@ def make_case(seed, i):
     rng = M.derive(seed, "c11", i)
     cfg = M.GenConfig.swarm(rng.fork("cfg"))
     loc = rng.choice(LOCATIONS)
-    if loc in ("import", "graph") and cfg.imports == 0:
+    if loc in ("import", "graph", "version_import") and cfg.imports == 0:
         cfg.imports = rng.randint(1, 2)
     targets = [t for t in ("cpp", "python", "json", "matlab") if rng.chance(0.6)] or ["json"]
     pkg = M.gen_package(rng.next(), cfg, targets=targets)
@@ -39,8 +39,10 @@ def make_case(seed, i):
     for t in targets:
         if rng.chance(0.25):
             pkg.targets[t][M.TARGET_KEYS[t]] = "generated/" + t
-    if loc in ("version", "evolution") or rng.chance(0.3):
-        pkg = E.with_versions(pkg, rng.fork("v"), rng.randint(1, 2), partial=rng.chance(0.5))
+    if loc in ("version", "evolution", "version_import") or rng.chance(0.3):
+        # previous versions next to the package, or archived snapshots of the whole tree (own copies of the imports)
+        layout = "archive" if loc == "version_import" else rng.fork("layout").choice(["siblings", "archive"])
+        pkg = E.with_versions(pkg, rng.fork("v"), rng.randint(1, 2), partial=rng.chance(0.5), layout=layout)
     desc = {"i": i, "location": loc, "targets": targets, "imports": len(pkg.imports), "versions": len(pkg.versions)}
     valid_files = M.render_tree(pkg, "/w")
     files, what = None, None
@@ -55,6 +57,13 @@ def make_case(seed, i):
     elif loc == "version" and pkg.versions:
         _, v = r2.choice(pkg.versions)
         files, what = E.invalidate(valid_files, "/w/" + v.dirname, r2, r2.choice(["yaml_syntax", "duplicate_type", "unknown_type", "bad_field_name"]))
+    elif loc == "version_import" and pkg.versions:
+        # the only error is in a package that a previous version imports (its own archived copy of it)
+        _, v = r2.choice(pkg.versions)
+        vimps = v.all_packages()[:-1]
+        if vimps:
+            imp = r2.choice(vimps)
+            files, what = E.invalidate(valid_files, "/w/" + imp.dirname, r2, r2.choice(["yaml_syntax", "duplicate_type", "unknown_type", "bad_field_name"]))
     elif loc == "evolution" and pkg.versions:
         p2 = copy.deepcopy(pkg)
         _, v = r2.choice(p2.versions)
